@@ -402,3 +402,101 @@ def regenerate_arrays(repo, lean_dir):
         with open(path, "w") as f:
             f.write(text)
     return problems, info
+
+
+# ---------------------------------------------------------------------------------------------
+# third translator: control/iosys.py:_process_dt_keyword  (dictionary look-ups + validation)
+# ---------------------------------------------------------------------------------------------
+
+def _dtkw_test(node):
+    if isinstance(node, ast.Name) and node.id == "static":
+        return "static"
+    if isinstance(node, ast.UnaryOp) and isinstance(node.op, ast.Not):
+        return "(!%s)" % _dtkw_test(node.operand)
+    if isinstance(node, ast.BoolOp):
+        op = " && " if isinstance(node.op, ast.And) else " || "
+        return "(" + op.join(_dtkw_test(v) for v in node.values) + ")"
+    if isinstance(node, ast.Compare) and len(node.ops) == 1:
+        op, lhs, rhs = node.ops[0], node.left, node.comparators[0]
+        if isinstance(op, (ast.In, ast.NotIn)) and isinstance(lhs, ast.Constant) and lhs.value == "dt" \
+                and isinstance(rhs, ast.Name) and rhs.id in ("keywords", "defaults"):
+            e = "Option.isSome %s" % {"keywords": "kw", "defaults": "dflt"}[rhs.id]
+            return e if isinstance(op, ast.In) else "(!%s)" % e
+        if isinstance(op, (ast.Is, ast.IsNot)) and isinstance(lhs, ast.Name) and lhs.id == "dt" \
+                and isinstance(rhs, ast.Constant) and rhs.value is None:
+            return "PyDtArg.isNone dt" if isinstance(op, ast.Is) else "(!PyDtArg.isNone dt)"
+        if isinstance(op, ast.Lt) and isinstance(lhs, ast.Name) and lhs.id == "dt" \
+                and isinstance(rhs, ast.Constant) and type(rhs.value) in (int, float) and rhs.value == 0:
+            return "PyDtArg.ltZero dt"
+    if isinstance(node, ast.Call) and isinstance(node.func, ast.Name) and node.func.id == "isinstance" \
+            and len(node.args) == 2 and isinstance(node.args[0], ast.Name) and node.args[0].id == "dt" \
+            and ast.unparse(node.args[1]).replace(" ", "") == "(bool,int,float)":
+        return "PyDtArg.isNumber dt"
+    raise Unsupported("test %s" % ast.unparse(node)[:80])
+
+
+def _dtkw_block(stmts, indent):
+    pad = "  " * indent
+    out = []
+    for s in stmts:
+        if isinstance(s, ast.Expr) and isinstance(s.value, ast.Constant) and isinstance(s.value.value, str):
+            continue
+        if isinstance(s, ast.Assign) and len(s.targets) == 1 and isinstance(s.targets[0], ast.Name) \
+                and s.targets[0].id == "dt":
+            v = ast.unparse(s.value).replace('"', "'")
+            if v == "None":
+                out.append(pad + "dt := DtArg.none")
+            elif v == "keywords.pop('dt')":
+                out.append(pad + "dt ← PyDtArg.pop kw")
+            elif v == "defaults.pop('dt')":
+                out.append(pad + "dt ← PyDtArg.pop dflt")
+            elif v == "config.defaults['control.default_dt']":
+                out.append(pad + "dt := cfg")
+            else:
+                raise Unsupported("assignment dt = %s" % v[:60])
+        elif isinstance(s, ast.If):
+            out.append(pad + "if %s then" % _dtkw_test(s.test))
+            out.append(_dtkw_block(s.body, indent + 1))
+            if s.orelse:
+                out.append(pad + "else")
+                out.append(_dtkw_block(s.orelse, indent + 1))
+        elif isinstance(s, ast.Raise) and isinstance(s.exc, ast.Call) and isinstance(s.exc.func, ast.Name) \
+                and s.exc.func.id == "ValueError":
+            out.append(pad + "throw Err.badArg")
+        elif isinstance(s, ast.Return) and isinstance(s.value, ast.Name) and s.value.id == "dt":
+            out.append(pad + "return dt")
+        else:
+            raise Unsupported("statement %s" % ast.unparse(s)[:60])
+    return "\n".join(out)
+
+
+def regenerate_dtkw(repo, lean_dir):
+    problems, info = [], {}
+    rel, func = "control/iosys.py", "_process_dt_keyword"
+    try:
+        src, fn = _find_function(os.path.join(repo, rel), func)
+        got = [x.arg for x in fn.args.args]
+        if got != ["keywords", "defaults", "static"]:
+            raise Unsupported("signature %s" % got)
+        body = _dtkw_block(fn.body, 1)
+        sha = hashlib.sha256(ast.get_source_segment(src, fn).encode()).hexdigest()[:16]
+        info[func] = {"sha": sha}
+        lean = ("/-- `_process_dt_keyword` (%s, sha256 %s) as the source text says it: `kw` / `dflt` are the\n"
+                "values under the key 'dt' of the two dictionaries (if present), `cfg` is\n"
+                "`config.defaults['control.default_dt']`; returns the raw value. -/\n"
+                "def processDtKeyword (kw dflt : Option DtArg) (static : Bool) (cfg : DtArg) : Except Err DtArg := do\n"
+                "  let mut dt := DtArg.none\n%s\n") % (rel, sha, body)
+    except (Unsupported, SyntaxError, OSError) as e:
+        problems.append("py2lean: %s:%s cannot be translated: %s" % (rel, func, e))
+        lean = ("/-- translation FAILED: %s -/\ndef processDtKeyword (kw dflt : Option DtArg) (static : Bool) "
+                "(cfg : DtArg) : Except Err DtArg := .error .notImplemented\n"
+                % str(e).replace("\n", " ").replace("-/", "- /")[:200])
+    text = ("-- GENERATED on every run by harness/core/py2lean.py from the source text in /repo.  Do not edit.\n"
+            "import CtrlVerif.Model.PyDt\nimport CtrlVerif.Model.DtOps\n\nnamespace CtrlVerif.Generated\n\n"
+            "open CtrlVerif\n\n" + lean + "\nend CtrlVerif.Generated\n")
+    path = os.path.join(lean_dir, "CtrlVerif", "Generated", "ProcessDtKeyword.lean")
+    old = open(path).read() if os.path.exists(path) else None
+    if old != text:
+        with open(path, "w") as f:
+            f.write(text)
+    return problems, info
